@@ -46,7 +46,8 @@ def vtk_case(draw):
             "vdims": vdims, "seed": draw(st.integers(0, 2**31)),
             "dtype": draw(st.sampled_from(["float", "float", "int", "int32", "int16", "float32"])), "mask": draw(gen.mask_spec(3)),
             "rep": draw(st.sampled_from(REPS)), "probes": [draw(gen.probe_spec(g["n"], ("c", "v", "f"))) for _ in range(6)],
-            "save_subregions": draw(st.booleans()), "unit": draw(st.sampled_from(gen.FIELD_UNITS))}
+            "save_subregions": draw(st.booleans()), "unit": draw(st.sampled_from(gen.FIELD_UNITS)),
+            "prelude": draw(st.booleans())}
 
 
 def build(case):
@@ -181,6 +182,12 @@ def check_vtk(case):
     rtol = 1e-9 if rep == "txt" else 0.0
     with tempfile.TemporaryDirectory() as tmp:
         path = os.path.join(tmp, "f.vtk")
+        if case.get("prelude") and case["save_subregions"]:
+            # the file name was used before, for a field with other subregions
+            old = df.Field(df.Mesh(region=mesh.region, n=mesh.n,
+                                   subregions={"stale": df.Region(p1=mesh.region.pmin, p2=mesh.region.pmax)}), nvdim=1, value=1.0)
+            old.to_file(path)
+            tag("name-used-before")
         f.to_file(path, representation=rep, save_subregions=case["save_subregions"])
         g2 = vtk_read(path)
         check_grid(case, g2, f, arr, valid, lat, "file", rtol)
